@@ -38,6 +38,86 @@ structure World.supBOn (w : World) (S : Nat → Prop) : Prop where
 theorem World.supB.on {w : World} (h : w.supB) : w.supBOn (fun _ => True) :=
   ⟨fun c _ f hf => by obtain ⟨t, ht, hs⟩ := h c f hf; exact ⟨t, ht, hs, fun _ _ => trivial⟩⟩
 
+/-! ### NamedTuples and a `BaseConverter`
+
+A `BaseConverter` has no NamedTuple unstructure hook: an instance of a NamedTuple class is left as it is, wherever
+it is met (by declared type or by run-time class).  Two demands keep that inside the round-trip scope:
+class-typed positions (`.cls`, union members) name attrs classes / dataclasses, never NamedTuple classes -- in
+Python a class is one or the other, the model's class table could say otherwise -- and NamedTuple classes have
+fields of primitive types only (the same restriction as for heterogeneous tuples and NewTypes). -/
+
+mutual
+def Ty.ntOK (w : World) : Ty → Bool
+  | .cls c => !w.isNT c
+  | .union cs _ => cs.all (fun c => !w.isNT c)
+  | .coll _ t => t.ntOK w
+  | .tupleHet ts => Ty.ntOKL w ts
+  | .map _ kt vt => kt.ntOK w && vt.ntOK w
+  | .opt t => t.ntOK w
+  | .wrap _ t => t.ntOK w
+  | _ => true
+termination_by structural t => t
+def Ty.ntOKL (w : World) : List Ty → Bool
+  | [] => true
+  | t :: ts => t.ntOK w && Ty.ntOKL w ts
+termination_by structural ts => ts
+end
+
+/-- the class-table side, demanded of a set `S` of classes -/
+structure World.ntOKOn (w : World) (S : Nat → Prop) : Prop where
+  fieldsOK : ∀ c, S c → ∀ f ∈ w.fields c, ∀ t, f.ty = some t → t.ntOK w = true
+  ntPrim : ∀ c, S c → w.isNT c = true → ∀ f ∈ w.fields c, ∃ t, f.ty = some t ∧ t.isPrimLeaf = true
+
+def World.ntOK (w : World) : Prop := w.ntOKOn (fun _ => True)
+
+/-- class tables without NamedTuple classes are in the scope trivially -/
+def World.noNT (w : World) : Prop := ∀ c, w.isNT c = false
+
+mutual
+theorem noNT_ntOK {w : World} (h : w.noNT) : ∀ t : Ty, t.ntOK w = true
+  | .cls c => by simp [Ty.ntOK, h c]
+  | .union cs _ => by simp only [Ty.ntOK, List.all_eq_true]; intro c _; simp [h c]
+  | .coll _ t => by simp only [Ty.ntOK]; exact noNT_ntOK h t
+  | .tupleHet ts => by simp only [Ty.ntOK]; exact noNT_ntOKL h ts
+  | .map _ kt vt => by simp only [Ty.ntOK, Bool.and_eq_true]; exact ⟨noNT_ntOK h kt, noNT_ntOK h vt⟩
+  | .opt t => by simp only [Ty.ntOK]; exact noNT_ntOK h t
+  | .wrap _ t => by simp only [Ty.ntOK]; exact noNT_ntOK h t
+  | .any | .int | .float | .str | .bytes | .bool | .enum _ | .lit _ | .td _ | .nt _ => by simp [Ty.ntOK]
+theorem noNT_ntOKL {w : World} (h : w.noNT) : ∀ ts : List Ty, Ty.ntOKL w ts = true
+  | [] => by simp [Ty.ntOKL]
+  | t :: ts => by simp only [Ty.ntOKL, Bool.and_eq_true]; exact ⟨noNT_ntOK h t, noNT_ntOKL h ts⟩
+end
+
+theorem World.noNT.ntOKOn {w : World} (h : w.noNT) (S : Nat → Prop) : w.ntOKOn S :=
+  ⟨fun _ _ _ _ t _ => noNT_ntOK h t, fun c _ hc => by rw [h c] at hc; cases hc⟩
+
+theorem World.noNT.ntOK {w : World} (h : w.noNT) : w.ntOK := h.ntOKOn _
+
+theorem primLeaf_ntOK (w : World) {t : Ty} (h : t.isPrimLeaf = true) : t.ntOK w = true := by
+  cases t <;> simp_all [Ty.isPrimLeaf, Ty.ntOK]
+
+theorem primLeaf_unionsOK (w : World) (tup : Bool) {t : Ty} (h : t.isPrimLeaf = true) : t.unionsOK w tup = true := by
+  cases t <;> simp_all [Ty.isPrimLeaf, Ty.unionsOK]
+
+theorem ntOKL_mem (w : World) : ∀ (ts : List Ty), Ty.ntOKL w ts = true → ∀ t ∈ ts, t.ntOK w = true
+  | [], _ => by intro t h; cases h
+  | a :: l, h => by
+      intro t ht
+      simp only [Ty.ntOKL, Bool.and_eq_true] at h
+      rcases List.mem_cons.mp ht with e | e
+      · subst e; exact h.1
+      · exact ntOKL_mem w l h.2 t e
+
+/-- the field types of a NamedTuple class in the scope: all primitive -/
+theorem ntTys_prim {w : World} {S : Nat → Prop} (h : w.ntOKOn S) {c : Nat} (hS : S c) (hnt : w.isNT c = true) :
+    (w.ntTys c).all Ty.isPrimLeaf = true := by
+  rw [List.all_eq_true]
+  intro t ht
+  simp only [World.ntTys, List.mem_map] at ht
+  obtain ⟨f, hf, rfl⟩ := ht
+  obtain ⟨t', hty, hp⟩ := h.ntPrim c hS hnt f hf
+  simp only [Field.tyA, hty]; exact hp
+
 theorem primLeaf_refs {t : Ty} (h : t.isPrimLeaf = true) : t.refs = [] := by
   cases t <;> simp_all [Ty.isPrimLeaf, Ty.refs]
 
@@ -57,7 +137,8 @@ theorem supGL_of_prim (td : Bool) : ∀ (ts : List Ty), ts.all Ty.isPrimLeaf = t
 
 theorem supB_supG (td : Bool) : ∀ (t : Ty), t.supB = true → t.supG td = true
   | .any, h => by simp [Ty.supB] at h
-  | .int, _ | .float, _ | .str, _ | .bytes, _ | .bool, _ | .enum _, _ | .lit _, _ | .cls _, _ | .union _ _, _ => by simp [Ty.supG]
+  | .int, _ | .float, _ | .str, _ | .bytes, _ | .bool, _ | .enum _, _ | .lit _, _ | .cls _, _ | .union _ _, _
+  | .nt _, _ => by simp [Ty.supG]
   | .coll k t, h => by
       simp only [Ty.supB, Bool.and_eq_true] at h
       simp only [Ty.supG, Bool.and_eq_true]
@@ -129,24 +210,24 @@ theorem unAnyL_leaves : ∀ (xs : List Obj), (∀ x ∈ xs, x.isLeaf = true) →
 /-! ### inside the support, unstructuring by declared type IS unstructuring by run-time class -/
 
 theorem un_eq_unAny (hg : cu.gen = false) :
-    ∀ (t : Ty) (x : Obj), t.supB = true → conf w t x = true → un w cu t x = unAny w cu x
-  | .any, _, hs, _ => by simp [Ty.supB] at hs
-  | .int, x, _, hc => by cases x <;> simp_all [conf, un, unAny]
-  | .float, x, _, hc => by cases x <;> simp_all [conf, un, unAny]
-  | .str, x, _, hc => by cases x <;> simp_all [conf, un, unAny]
-  | .bytes, x, _, hc => by cases x <;> simp_all [conf, un, unAny]
-  | .bool, x, _, hc => by cases x <;> simp_all [conf, un, unAny]
-  | .enum e, x, _, hc => by
+    ∀ (t : Ty) (x : Obj), t.supB = true → t.ntOK w = true → conf w t x = true → un w cu t x = unAny w cu x
+  | .any, _, hs, _, _ => by simp [Ty.supB] at hs
+  | .int, x, _, _, hc => by cases x <;> simp_all [conf, un, unAny]
+  | .float, x, _, _, hc => by cases x <;> simp_all [conf, un, unAny]
+  | .str, x, _, _, hc => by cases x <;> simp_all [conf, un, unAny]
+  | .bytes, x, _, _, hc => by cases x <;> simp_all [conf, un, unAny]
+  | .bool, x, _, _, hc => by cases x <;> simp_all [conf, un, unAny]
+  | .enum e, x, _, _, hc => by
       obtain ⟨m, rfl, _⟩ := conf_enum_inv w hc
       simp [un, unAny]
-  | .lit vs, x, hs, hc => by
+  | .lit vs, x, hs, _, hc => by
       have hl : x.isLeaf = true := lit_leaf (by simpa [Ty.supB] using hs) (by simpa [conf] using hc)
       rw [unAny_leaf w cu hl]
       cases x <;> simp_all [un, Obj.isLeaf]
-  | .coll k t, x, _, hc => by
+  | .coll k t, x, _, _, hc => by
       cases x <;> simp [conf] at hc
       rw [un, unAny]; simp [hg]
-  | .tupleHet ts, x, hs, hc => by
+  | .tupleHet ts, x, hs, _, hc => by
       cases x with
       | coll ck xs =>
         cases ck <;> simp [conf] at hc
@@ -154,25 +235,29 @@ theorem un_eq_unAny (hg : cu.gen = false) :
         rw [un, unAny]
         simp [hg, mkColl, CK.isSet, unAnyL_leaves w cu xs hl]
       | _ => simp [conf] at hc
-  | .map _ kt vt, x, _, hc => by
+  | .map _ kt vt, x, _, _, hc => by
       cases x <;> simp [conf] at hc
       rw [un, unAny]; simp [hg]
-  | .opt t, x, _, _ => by
+  | .opt t, x, _, _, _ => by
       cases x <;> simp [un, unAny, hg]
-  | .wrap k t, x, hs, hc => by
+  | .wrap k t, x, hs, hk', hc => by
       simp only [Ty.supB, Bool.or_eq_true, Bool.and_eq_true, beq_iff_eq] at hs
       have hc' : conf w t x = true := by simpa [conf] using hc
       rcases hs with ⟨hk, hs'⟩ | ⟨hk, hp⟩
-      · have ih := un_eq_unAny hg t x hs' hc'
+      · have ih := un_eq_unAny hg t x hs' (by simpa [Ty.ntOK] using hk') hc'
         rcases hk with hk | hk <;> subst hk <;> simp [un, ih]
       · subst hk
         rw [unAny_leaf w cu (conf_prim_leaf w hp hc')]
         simp [un, hg]
-  | .cls c, x, _, hc => by
+  | .cls c, x, _, hk, hc => by
       cases x <;> simp [conf] at hc
-      rw [un, unAny, hc.1]
-  | .td _, _, hs, _ => by simp [Ty.supB] at hs
-  | .union _ _, x, _, _ => by simp only [un]
+      have hnt : w.isNT c = false := by simpa [Ty.ntOK] using hk
+      rw [un, unAny, ← hc.1]; simp [hnt]
+  | .td _, _, hs, _, _ => by simp [Ty.supB] at hs
+  | .union _ _, x, _, _, _ => by simp only [un]
+  | .nt c, x, _, _, hc => by
+      cases x <;> simp [conf] at hc
+      rw [un, unAny, ← hc.1.1.1]; simp [hg, hc.1.1.2]
 
 /-- a non-`None` value is never unstructured to `None` (so `Optional` round-trips) -/
 theorem unAny_ne_none (hwe : w.WFE) :
@@ -213,12 +298,15 @@ theorem unAny_ne_none (hwe : w.WFE) :
       · rw [unAny_leaf w cu (conf_prim_leaf w hp hc')]; exact hx
   | .cls c, x, _, hc, _ => by
       cases x <;> simp [conf] at hc
-      simp only [unAny]; split <;> simp
+      simp only [unAny]; split <;> (try split) <;> simp
   | .td _, _, hs, _, _ => by simp [Ty.supB] at hs
   | .union _ _, x, _, hc, hx => by
       cases x <;> simp [conf] at hc
       · exact absurd rfl hx
-      · simp only [unAny]; split <;> simp
+      · simp only [unAny]; split <;> (try split) <;> simp
+  | .nt _, x, _, hc, _ => by
+      cases x <;> simp [conf] at hc
+      simp only [unAny]; split <;> (try split) <;> simp
 
 /-- on hashable-primitive types a `BaseConverter` emits what a `Converter` emits -/
 theorem unAny_eq_un_hp (cg : Cfg) (hg : cg.gen = true) :
@@ -251,7 +339,8 @@ theorem unAny_eq_un_hp (cg : Cfg) (hg : cg.gen = true) :
       simp only [un, hg, Bool.true_or, if_true]
       exact unAny_eq_un_hp cg hg t a (by simpa [Ty.hashPrim] using hp) hs' hc'
   | .any, _, hp, _, _ | .coll _ _, _, hp, _, _ | .tupleHet _, _, hp, _, _ | .map _ _ _, _, hp, _, _
-  | .cls _, _, hp, _, _ | .td _, _, hp, _, _ | .union _ _, _, hp, _, _ => by simp [Ty.hashPrim] at hp
+  | .cls _, _, hp, _, _ | .td _, _, hp, _, _ | .union _ _, _, hp, _, _ | .nt _, _, hp, _, _ => by
+      simp [Ty.hashPrim] at hp
 
 /-- run-time-class unstructuring is injective up to Python `==` on the values of a hashable-primitive type -/
 theorem unAny_inj (hwe : w.WFE) (t : Ty) (hp : t.hashPrim = true) (hs : t.supB = true) (a b : Obj)
@@ -331,11 +420,62 @@ theorem unAnyL_nodup (xs : List Obj)
 
 /-! ### the heart: structuring by declared type inverts unstructuring by run-time class -/
 
+/-- the heterogeneous-tuple case of `roundtrip_any` (items of primitive types, passed through) -/
+theorem roundtrip_any_tup (hg : cu.gen = false) (ts : List Ty) (x : Obj) (hc : conf w (.tupleHet ts) x = true)
+    (hps : ts.all Ty.isPrimLeaf = true)
+    (IH : ∀ (t' : Ty) (y : Obj), sizeOf y < sizeOf x → t'.isPrimLeaf = true → conf w t' y = true → y.valid = true →
+      stF w cs t' (unAny w cu y) = some y) :
+    stF w cs (.tupleHet ts) (unAny w cu x) = some x := by
+  cases x with
+  | coll ck xs =>
+    cases ck <;> simp [conf] at hc
+    have hl := confT_prim_leaves w ts xs hps hc
+    rw [unAny]
+    simp only [hg, Bool.false_eq_true, if_false, mkColl, CK.isSet]
+    rw [stF_tup_some w cs (o := .coll .tuple (unAnyL w cu xs)) (xs := unAnyL w cu xs) rfl]
+    rw [rtAnyT w cu cs ts xs hc (fun t' ht' y hy hcy =>
+      IH t' y (by have := List.sizeOf_lt_of_mem hy; simp; omega) (List.all_eq_true.mp hps t' ht') hcy
+        (by have := hl y hy; cases y <;> simp_all [Obj.isLeaf, Obj.valid]))]
+    rfl
+  | _ => simp [conf] at hc
+
+/-- the NamedTuple case of `roundtrip_any`: the instance is left as the tuple it is, its (primitive) items are
+structured back by their declared types, `cl(*res)` rebuilds the instance -/
+theorem roundtrip_any_nt (hg : cu.gen = false) (c : Nat) (x : Obj) (hc : conf w (.nt c) x = true)
+    (hps : w.isNT c = true → (w.ntTys c).all Ty.isPrimLeaf = true)
+    (IH : ∀ (t' : Ty) (y : Obj), sizeOf y < sizeOf x → t'.isPrimLeaf = true → conf w t' y = true → y.valid = true →
+      stF w cs t' (unAny w cu y) = some y) :
+    stF w cs (.nt c) (unAny w cu x) = some x := by
+  cases x with
+  | inst c' fs =>
+    simp only [conf, Bool.and_eq_true, beq_iff_eq] at hc
+    obtain ⟨⟨⟨hcc, hnt⟩, hnames⟩, hcT⟩ := hc
+    subst hcc
+    have hps := hps hnt
+    have hl := confT_prim_leaves w (w.ntTys c) (vals fs) hps hcT
+    rw [unAny]; simp only [hnt, hg, Bool.false_eq_true, if_true, if_false]
+    rw [stF_nt_some w cs (o := .coll .tuple (vals fs)) (xs := vals fs) rfl, if_pos hnt]
+    have hsz : ∀ y ∈ vals fs, sizeOf y < sizeOf (Obj.inst c fs) := by
+      intro y hy
+      have h1 := List.sizeOf_lt_of_mem hy
+      have h2 := sizeOf_vals_lt fs
+      simp; omega
+    have hrt := rtAnyT w cu cs (w.ntTys c) (vals fs) hcT (fun t' ht' y hy hcy =>
+      IH t' y (hsz y hy) (List.all_eq_true.mp hps t' ht') hcy
+        (by have := hl y hy; cases y <;> simp_all [Obj.isLeaf, Obj.valid]))
+    rw [unAnyL_leaves w cu (vals fs) hl] at hrt
+    rw [hrt]
+    simp only [Option.map_some, ntMk, Option.some.injEq, Obj.inst.injEq, true_and]
+    rw [← hnames]; exact zip_names_vals
+  | _ => simp [conf] at hc
+
+
+
 theorem roundtrip_any_aux (hg : cu.gen = false) (hstrat : cs.tupleStrat = cu.tupleStrat) (hforbid : cs.forbid = false)
-    (hw : w.WF) (hwe : w.WFE) (S : Nat → Prop) (hws : w.supBOn S)
+    (hw : w.WF) (hwe : w.WFE) (S : Nat → Prop) (hws : w.supBOn S) (hwk : w.ntOKOn S)
     (hwu : ∀ c, S c → ∀ f ∈ w.fields c, ∀ t, f.ty = some t → t.unionsOK w cs.tupleStrat = true) :
-    ∀ (n m : Nat) (t : Ty) (x : Obj), sizeOf x ≤ n → sizeOf t ≤ m → t.supB = true → (∀ c ∈ t.refs, S c) →
-      t.unionsOK w cs.tupleStrat = true →
+    ∀ (n m : Nat) (t : Ty) (x : Obj), sizeOf x ≤ n → sizeOf t ≤ m → t.supB = true → t.ntOK w = true →
+      (∀ c ∈ t.refs, S c) → t.unionsOK w cs.tupleStrat = true →
       conf w t x = true → x.valid = true → stF w cs t (unAny w cu x) = some x := by
   intro n
   induction n with
@@ -347,18 +487,19 @@ theorem roundtrip_any_aux (hg : cu.gen = false) (hstrat : cs.tupleStrat = cu.tup
     | zero => intro t x _ ht; have : 0 < sizeOf t := by cases t <;> simp <;> omega
               omega
     | succ m ihm =>
-      intro t x hx ht hs hr hu hc hv
-      have IHo : ∀ (t' : Ty) (x' : Obj), sizeOf x' < sizeOf x → t'.supB = true → (∀ c ∈ t'.refs, S c) →
-          t'.unionsOK w cs.tupleStrat = true →
+      intro t x hx ht hs hk hr hu hc hv
+      have IHo : ∀ (t' : Ty) (x' : Obj), sizeOf x' < sizeOf x → t'.supB = true → t'.ntOK w = true →
+          (∀ c ∈ t'.refs, S c) → t'.unionsOK w cs.tupleStrat = true →
           conf w t' x' = true → x'.valid = true → stF w cs t' (unAny w cu x') = some x' :=
-        fun t' x' hlt hs' hr' hu' hc' hv' => ihn (sizeOf t') t' x' (by omega) (Nat.le_refl _) hs' hr' hu' hc' hv'
+        fun t' x' hlt hs' hk' hr' hu' hc' hv' =>
+          ihn (sizeOf t') t' x' (by omega) (Nat.le_refl _) hs' hk' hr' hu' hc' hv'
       cases t with
       | any => simp [Ty.supB] at hs
-      | int => clear IHo ihm ihn hwu hws hu hr; cases x <;> simp_all [conf, unAny, stF, Obj.toInt?]
-      | float => clear IHo ihm ihn hwu hws hu hr; cases x <;> simp_all [conf, unAny, stF, Obj.toFlt?]
-      | str => clear IHo ihm ihn hwu hws hu hr; cases x <;> simp_all [conf, unAny, stF, pyStr]
-      | bytes => clear IHo ihm ihn hwu hws hu hr; cases x <;> simp_all [conf, unAny, stF, Obj.toBytes?]
-      | bool => clear IHo ihm ihn hwu hws hu hr; cases x <;> simp_all [conf, unAny, stF, Obj.truthy]
+      | int => clear IHo ihm ihn hwu hws hwk hu hr hk; cases x <;> simp_all [conf, unAny, stF, Obj.toInt?]
+      | float => clear IHo ihm ihn hwu hws hwk hu hr hk; cases x <;> simp_all [conf, unAny, stF, Obj.toFlt?]
+      | str => clear IHo ihm ihn hwu hws hwk hu hr hk; cases x <;> simp_all [conf, unAny, stF, pyStr]
+      | bytes => clear IHo ihm ihn hwu hws hwk hu hr hk; cases x <;> simp_all [conf, unAny, stF, Obj.toBytes?]
+      | bool => clear IHo ihm ihn hwu hws hwk hu hr hk; cases x <;> simp_all [conf, unAny, stF, Obj.truthy]
       | enum e =>
         obtain ⟨mm, rfl, hm⟩ := conf_enum_inv w hc
         simp only [unAny, enumValue, stF]
@@ -381,7 +522,8 @@ theorem roundtrip_any_aux (hg : cu.gen = false) (hstrat : cs.tupleStrat = cu.tup
           subst hck
           have hel := (confL_iff w t' xs).mp hcl
           have hrt : stFL w cs t' (unAnyL w cu xs) = some xs :=
-            rtAnyL w cu cs t' xs (fun y hy => IHo t' y (by have := List.sizeOf_lt_of_mem hy; simp; omega) hs' hr'
+            rtAnyL w cu cs t' xs (fun y hy => IHo t' y (by have := List.sizeOf_lt_of_mem hy; simp; omega) hs'
+              (by simpa [Ty.ntOK] using hk) hr'
               (by simpa [Ty.unionsOK] using hu) (hel y hy)
               (validL_mem (by simpa [Obj.valid] using hv) hy))
           rw [unAny]
@@ -406,27 +548,16 @@ theorem roundtrip_any_aux (hg : cu.gen = false) (hstrat : cs.tupleStrat = cu.tup
             simp [finishColl, hiss']
         | _ => simp [conf] at hc
       | tupleHet ts =>
-        cases x with
-        | coll ck xs =>
-          cases ck <;> simp [conf] at hc
-          have hps : ts.all Ty.isPrimLeaf = true := by simpa [Ty.supB] using hs
-          rw [unAny]
-          simp only [hg, Bool.false_eq_true, if_false, mkColl, CK.isSet]
-          rw [stF_tup_some w cs (o := .coll .tuple (unAnyL w cu xs)) (xs := unAnyL w cu xs) rfl]
-          rw [rtAnyT w cu cs ts xs hc (fun t' ht' y hy hcy =>
-            IHo t' y (by have := List.sizeOf_lt_of_mem hy; simp; omega)
-              (primLeaf_supB (List.all_eq_true.mp hps t' ht'))
-              (by rw [primLeaf_refs (List.all_eq_true.mp hps t' ht')]; intro c hc'; cases hc')
-              (by have := List.all_eq_true.mp hps t' ht'; cases t' <;> simp_all [Ty.isPrimLeaf, Ty.unionsOK]) hcy
-              (validL_mem (by simpa [Obj.valid] using hv) hy))]
-          rfl
-        | _ => simp [conf] at hc
+        exact roundtrip_any_tup w cu cs hg ts x hc (by simpa [Ty.supB] using hs)
+          (fun t' y hy hp hcy hvy => IHo t' y hy (primLeaf_supB hp) (primLeaf_ntOK w hp)
+            (by rw [primLeaf_refs hp]; intro c hc'; cases hc') (primLeaf_unionsOK w _ hp) hcy hvy)
       | map k kt vt =>
         simp only [Ty.supB, Bool.and_eq_true] at hs
         obtain ⟨⟨hp, hsk⟩, hsv⟩ := hs
         have hrk : ∀ c ∈ kt.refs, S c := fun c hc' => hr c (by simp [Ty.refs, hc'])
         have hrv : ∀ c ∈ vt.refs, S c := fun c hc' => hr c (by simp [Ty.refs, hc'])
         simp only [Ty.unionsOK, Bool.and_eq_true] at hu
+        simp only [Ty.ntOK, Bool.and_eq_true] at hk
         cases x with
         | dict kvs =>
           simp only [conf, Bool.and_eq_true] at hc
@@ -443,8 +574,8 @@ theorem roundtrip_any_aux (hg : cu.gen = false) (hstrat : cs.tupleStrat = cu.tup
             obtain ⟨a, b⟩ := p
             simp only [Prod.mk.sizeOf_spec] at h1
             have hvv := validKV_mem (p := (a, b)) (by simp only [Obj.valid, Bool.and_eq_true] at hv; exact hv.2) hp'
-            exact ⟨IHo kt a (by simp; omega) hsk hrk hu.1 (hkv.1 a (by simp only [keysOf, List.mem_map]; exact ⟨(a, b), hp', rfl⟩)) hvv.1,
-                   IHo vt b (by simp; omega) hsv hrv hu.2 (hkv.2 b (by simp only [List.mem_map]; exact ⟨(a, b), hp', rfl⟩)) hvv.2⟩)]
+            exact ⟨IHo kt a (by simp; omega) hsk hk.1 hrk hu.1 (hkv.1 a (by simp only [keysOf, List.mem_map]; exact ⟨(a, b), hp', rfl⟩)) hvv.1,
+                   IHo vt b (by simp; omega) hsv hk.2 hrv hu.2 (hkv.2 b (by simp only [List.mem_map]; exact ⟨(a, b), hp', rfl⟩)) hvv.2⟩)]
           simp [hh, mkDict_of_nodup _ hnd]
         | _ => simp [conf] at hc
       | opt t' =>
@@ -457,7 +588,8 @@ theorem roundtrip_any_aux (hg : cu.gen = false) (hstrat : cs.tupleStrat = cu.tup
           have : stF w cs (.opt t') (unAny w cu x) = stF w cs t' (unAny w cu x) := by
             cases hu : unAny w cu x <;> simp_all [stF]
           rw [this]
-          exact ihm t' x hx hsz hs' (by simpa [Ty.refs] using hr) (by simpa [Ty.unionsOK] using hu) hc hv
+          exact ihm t' x hx hsz hs' (by simpa [Ty.ntOK] using hk) (by simpa [Ty.refs] using hr)
+            (by simpa [Ty.unionsOK] using hu) hc hv
       | wrap k t' =>
         have hsz : sizeOf t' ≤ m := by simp at ht; omega
         have hs' : t'.supB = true := by
@@ -466,7 +598,7 @@ theorem roundtrip_any_aux (hg : cu.gen = false) (hstrat : cs.tupleStrat = cu.tup
           · exact h
           · exact primLeaf_supB h
         simp only [stF]
-        exact ihm t' x hx hsz hs' (by simpa [Ty.refs] using hr)
+        exact ihm t' x hx hsz hs' (by simpa [Ty.ntOK] using hk) (by simpa [Ty.refs] using hr)
           (by
             simp only [Ty.supB, Bool.or_eq_true, Bool.and_eq_true] at hs
             simpa [Ty.unionsOK] using hu) (by simpa [conf] using hc) hv
@@ -484,18 +616,20 @@ theorem roundtrip_any_aux (hg : cu.gen = false) (hstrat : cs.tupleStrat = cu.tup
             simp only [hty]
             unfold fconf at hfc
             simp only [hty] at hfc
-            rw [un_eq_unAny w cu hg t' p.2 hst' hfc]
-            exact IHo t' p.2 (by have := sizeOf_snd_lt_of_mem hp; simp; omega) hst' hrt'
+            have hkf := hwk.fieldsOK c (hr c (by simp [Ty.refs])) f hf t' hty
+            rw [un_eq_unAny w cu hg t' p.2 hst' hkf hfc]
+            exact IHo t' p.2 (by have := sizeOf_snd_lt_of_mem hp; simp; omega) hst' hkf hrt'
               (hwu c (hr c (by simp [Ty.refs])) f hf t' hty) hfc
               (validF_mem (by simpa [Obj.valid] using hv) hp)
+          have hnt : w.isNT c = false := by simpa [Ty.ntOK] using hk
           by_cases htup : cu.tupleStrat = true
-          · rw [unAny]; simp only [htup, if_true]
+          · rw [unAny]; simp only [hnt, Bool.false_eq_true, htup, if_true, if_false]
             rw [stF_cls_tuple w cs (by rw [hstrat]; exact htup)]
             simp only [iterItems]
             rw [rtFieldsT w cu cs (w.fields c) fs hcf (fun f hf p hp hn _ => hfield f hf p hp hn)]
             rfl
           · have htup' : cu.tupleStrat = false := by simpa using htup
-            rw [unAny]; simp only [htup', Bool.false_eq_true, if_false]
+            rw [unAny]; simp only [hnt, htup', Bool.false_eq_true, if_false]
             rw [stF_cls_dict w cs (by rw [hstrat]; exact htup')]
             -- the interpretive hook emits every field, `init=False` ones included; structuring ignores those
             rw [rtFields w cu cs (unFields w cu (w.fields c) fs) (w.fields c) fs hcf (fun f hf p hp hn _ =>
@@ -517,60 +651,67 @@ theorem roundtrip_any_aux (hg : cu.gen = false) (hstrat : cs.tupleStrat = cu.tup
           obtain ⟨hcm, hcf⟩ := hc
           have hcm' : c ∈ ucs := by simpa using hcm
           have hcls := ihm (.cls c) (.inst c fs) hx (by have := sizeOf_cls_lt_union hcm' hn; omega)
-            (by simp [Ty.supB]) (by intro c' hc'; simp only [Ty.refs, List.mem_singleton] at hc'; rw [hc']
-                                    exact hr c (by simpa [Ty.refs] using hcm'))
+            (by simp [Ty.supB]) (by simp [Ty.ntOK, unionOKB_notNT hok hcm'])
+            (by intro c' hc'; simp only [Ty.refs, List.mem_singleton] at hc'; rw [hc']
+                exact hr c (by simpa [Ty.refs] using hcm'))
             (by simp [Ty.unionsOK]) (by simp [conf, hcf]) hv
           have hd : unAny w cu (.inst c fs) = .dict (unFields w cu (w.fields c) fs) := by
-            simp [unAny, htupU]
+            simp [unAny, htupU, unionOKB_notNT hok hcm']
           rw [stF_union, hd, unionPick_member w cu hw hok hn hcm' fs hcf]
           simp only [hcm', if_true]
           rw [← hd]; exact hcls
         | _ => simp [conf] at hc
+      | nt c =>
+        exact roundtrip_any_nt w cu cs hg c x hc (ntTys_prim hwk (hr c (by simp [Ty.refs])))
+          (fun t' y hy hp hcy hvy => IHo t' y hy (primLeaf_supB hp) (primLeaf_ntOK w hp)
+            (by rw [primLeaf_refs hp]; intro c hc'; cases hc') (primLeaf_unionsOK w _ hp) hcy hvy)
 
 /-- structuring by declared type inverts unstructuring by run-time class on conforming values;
 the support hypothesis is demanded only of a closed set `S` of classes containing those the type mentions -/
 theorem roundtrip_any_on (hg : cu.gen = false) (hstrat : cs.tupleStrat = cu.tupleStrat) (hforbid : cs.forbid = false)
-    (hw : w.WF) (hwe : w.WFE) (S : Nat → Prop) (hws : w.supBOn S)
+    (hw : w.WF) (hwe : w.WFE) (S : Nat → Prop) (hws : w.supBOn S) (hwk : w.ntOKOn S)
     (hwu : ∀ c, S c → ∀ f ∈ w.fields c, ∀ t, f.ty = some t → t.unionsOK w cs.tupleStrat = true)
-    (t : Ty) (x : Obj) (hs : t.supB = true) (hr : ∀ c ∈ t.refs, S c) (hu : t.unionsOK w cs.tupleStrat = true)
+    (t : Ty) (x : Obj) (hs : t.supB = true) (hk : t.ntOK w = true) (hr : ∀ c ∈ t.refs, S c)
+    (hu : t.unionsOK w cs.tupleStrat = true)
     (hc : conf w t x = true) (hv : x.valid = true) :
     stF w cs t (unAny w cu x) = some x :=
-  roundtrip_any_aux w cu cs hg hstrat hforbid hw hwe S hws hwu (sizeOf x) (sizeOf t) t x (Nat.le_refl _) (Nat.le_refl _)
-    hs hr hu hc hv
+  roundtrip_any_aux w cu cs hg hstrat hforbid hw hwe S hws hwk hwu (sizeOf x) (sizeOf t) t x (Nat.le_refl _) (Nat.le_refl _)
+    hs hk hr hu hc hv
 
 theorem roundtrip_any (hg : cu.gen = false) (hstrat : cs.tupleStrat = cu.tupleStrat) (hforbid : cs.forbid = false)
-    (hw : w.WF) (hwe : w.WFE) (hws : w.supB) (hwu : w.unionsOK cs.tupleStrat)
-    (t : Ty) (x : Obj) (hs : t.supB = true) (hu : t.unionsOK w cs.tupleStrat = true)
+    (hw : w.WF) (hwe : w.WFE) (hws : w.supB) (hwk : w.ntOK) (hwu : w.unionsOK cs.tupleStrat)
+    (t : Ty) (x : Obj) (hs : t.supB = true) (hk : t.ntOK w = true) (hu : t.unionsOK w cs.tupleStrat = true)
     (hc : conf w t x = true) (hv : x.valid = true) :
     stF w cs t (unAny w cu x) = some x :=
-  roundtrip_any_on w cu cs hg hstrat hforbid hw hwe _ hws.on (fun c _ => hwu c) t x hs (fun _ _ => trivial) hu hc hv
+  roundtrip_any_on w cu cs hg hstrat hforbid hw hwe _ hws.on hwk (fun c _ => hwu c) t x hs hk (fun _ _ => trivial) hu hc hv
 
 /-- **C01 (core, BaseConverter-unstructured data), support demanded of the reachable classes only.** -/
 theorem roundtrip_interp_on (hg : cu.gen = false) (hstrat : cs.tupleStrat = cu.tupleStrat) (hforbid : cs.forbid = false)
-    (hw : w.WF) (hwe : w.WFE) (S : Nat → Prop) (hws : w.supBOn S)
+    (hw : w.WF) (hwe : w.WFE) (S : Nat → Prop) (hws : w.supBOn S) (hwk : w.ntOKOn S)
     (hwu : ∀ c, S c → ∀ f ∈ w.fields c, ∀ t, f.ty = some t → t.unionsOK w cs.tupleStrat = true)
-    (t : Ty) (x : Obj) (hs : t.supB = true) (hr : ∀ c ∈ t.refs, S c) (hu : t.unionsOK w cs.tupleStrat = true)
+    (t : Ty) (x : Obj) (hs : t.supB = true) (hk : t.ntOK w = true) (hr : ∀ c ∈ t.refs, S c)
+    (hu : t.unionsOK w cs.tupleStrat = true)
     (hc : conf w t x = true) (hv : x.valid = true) :
     stF w cs t (un w cu t x) = some x := by
-  rw [un_eq_unAny w cu hg t x hs hc]
-  exact roundtrip_any_on w cu cs hg hstrat hforbid hw hwe S hws hwu t x hs hr hu hc hv
+  rw [un_eq_unAny w cu hg t x hs hk hc]
+  exact roundtrip_any_on w cu cs hg hstrat hforbid hw hwe S hws hwk hwu t x hs hk hr hu hc hv
 
 /-- **C01 (core, BaseConverter-unstructured data).**  The structuring converter may be of either class. -/
 theorem roundtrip_interp (hg : cu.gen = false) (hstrat : cs.tupleStrat = cu.tupleStrat) (hforbid : cs.forbid = false)
-    (hw : w.WF) (hwe : w.WFE) (hws : w.supB) (hwu : w.unionsOK cs.tupleStrat)
-    (t : Ty) (x : Obj) (hs : t.supB = true) (hu : t.unionsOK w cs.tupleStrat = true)
+    (hw : w.WF) (hwe : w.WFE) (hws : w.supB) (hwk : w.ntOK) (hwu : w.unionsOK cs.tupleStrat)
+    (t : Ty) (x : Obj) (hs : t.supB = true) (hk : t.ntOK w = true) (hu : t.unionsOK w cs.tupleStrat = true)
     (hc : conf w t x = true) (hv : x.valid = true) :
     stF w cs t (un w cu t x) = some x :=
-  roundtrip_interp_on w cu cs hg hstrat hforbid hw hwe _ hws.on (fun c _ => hwu c) t x hs (fun _ _ => trivial) hu hc hv
+  roundtrip_interp_on w cu cs hg hstrat hforbid hw hwe _ hws.on hwk (fun c _ => hwu c) t x hs hk (fun _ _ => trivial) hu hc hv
 
 /-- both halves: any pair of converter classes, inside the common support -/
 theorem roundtrip_cross (hstrat : cs.tupleStrat = cu.tupleStrat) (hforbid : cs.forbid = false)
-    (hw : w.WF) (hwe : w.WFE) (hws : w.supB) (hwu : w.unionsOK cs.tupleStrat)
-    (t : Ty) (x : Obj) (hs : t.supB = true) (hu : t.unionsOK w cs.tupleStrat = true)
+    (hw : w.WF) (hwe : w.WFE) (hws : w.supB) (hwk : w.ntOK) (hwu : w.unionsOK cs.tupleStrat)
+    (t : Ty) (x : Obj) (hs : t.supB = true) (hk : t.ntOK w = true) (hu : t.unionsOK w cs.tupleStrat = true)
     (hc : conf w t x = true) (hv : x.valid = true) :
     stF w cs t (un w cu t x) = some x := by
   cases hg : cu.gen with
-  | false => exact roundtrip_interp w cu cs hg hstrat hforbid hw hwe hws hwu t x hs hu hc hv
+  | false => exact roundtrip_interp w cu cs hg hstrat hforbid hw hwe hws hwk hwu t x hs hk hu hc hv
   | true =>
     exact roundtrip w cu cs hg hstrat hforbid hw hwe (World.supB_supG hws cs.gen) hwu t x (supB_supG cs.gen t hs) hu hc hv
 
@@ -585,8 +726,9 @@ def World.supPair (w : World) (cu cs : Cfg) : Prop := if cu.gen = true then w.su
 
 /-- **C01 (core), all four pairs of converter classes.** -/
 theorem roundtrip_full (hstrat : cs.tupleStrat = cu.tupleStrat) (hforbid : cs.forbid = false)
-    (hw : w.WF) (hwe : w.WFE) (hws : w.supPair cu cs) (hwu : w.unionsOK cs.tupleStrat)
-    (t : Ty) (x : Obj) (hs : t.supPair cu cs = true) (hu : t.unionsOK w cs.tupleStrat = true)
+    (hw : w.WF) (hwe : w.WFE) (hws : w.supPair cu cs) (hwk : cu.gen = false → w.ntOK) (hwu : w.unionsOK cs.tupleStrat)
+    (t : Ty) (x : Obj) (hs : t.supPair cu cs = true) (hk : cu.gen = false → t.ntOK w = true)
+    (hu : t.unionsOK w cs.tupleStrat = true)
     (hc : conf w t x = true) (hv : x.valid = true) :
     stF w cs t (un w cu t x) = some x := by
   unfold World.supPair at hws
@@ -594,7 +736,7 @@ theorem roundtrip_full (hstrat : cs.tupleStrat = cu.tupleStrat) (hforbid : cs.fo
   cases hg : cu.gen with
   | false =>
     simp only [hg, Bool.false_eq_true, if_false] at hws hs
-    exact roundtrip_interp w cu cs hg hstrat hforbid hw hwe hws hwu t x hs hu hc hv
+    exact roundtrip_interp w cu cs hg hstrat hforbid hw hwe hws (hwk hg) hwu t x hs (hk hg) hu hc hv
   | true =>
     simp only [hg, if_true] at hws hs
     exact roundtrip w cu cs hg hstrat hforbid hw hwe hws hwu t x hs hu hc hv
